@@ -115,7 +115,17 @@ func joinName(c []string) string {
 func nameStrs(n enc.Name) []string {
 	out := []string{}
 	for _, c := range n {
-		out = append(out, string(c.Val))
+		printable := true
+		for _, b := range c.Val {
+			if b < 0x21 || b > 0x7e || b == '%' {
+				printable = false
+			}
+		}
+		if printable && c.Typ == enc.TypeGenericNameComponent {
+			out = append(out, string(c.Val))
+		} else { // the canonical (injective) URI form; the drivers' name universes are written in it
+			out = append(out, c.CanonicalString())
+		}
 	}
 	return out
 }
